@@ -42,9 +42,11 @@ def tol_flag(value, lo, hi, tol):
     """Exact three-valued oracle for the tolerant flag: True / False / None (don't care)."""
     v, l, h, t = F(value), F(lo), F(hi), F(tol)
     all_ints = all(isinstance(x, int) and not isinstance(x, bool) for x in (value, lo, hi, tol))
+    if all_ints:                                           # integer arithmetic is exact at any magnitude
+        return bool(v > h + t or v < l - t)
     for bound_sum, fsum, outside in ((h + t, float(hi) + float(tol), v > h + t),
                                      (l - t, float(lo) - float(tol), v < l - t)):
-        exact_repr = all_ints or F(fsum) == bound_sum      # integer arithmetic is exact at any magnitude
+        exact_repr = F(fsum) == bound_sum
         if not exact_repr and abs(v - bound_sum) <= 2 * F(ulp(fsum)):
             return None
         if outside:
@@ -195,7 +197,7 @@ def scalar_cases(draw):
         return {"v": value, "lo": lo, "hi": hi, "tol": tol, "tags": ["lattice"]}
     if kind == "ints" and draw(st.integers(0, 3)) == 0:
         # exact integers beyond 2^53 (not representable as floats): still "the value itself" / the nearer bound
-        base = draw(st.sampled_from([2 ** 53, 2 ** 60, 10 ** 18, -2 ** 53, -10 ** 18]))
+        base = draw(st.sampled_from([2 ** 53, 2 ** 60, 10 ** 18, -2 ** 53, -10 ** 18, 2 ** 1024, 10 ** 400, -10 ** 400]))
         lo, hi = sorted([base + draw(st.integers(-9, 9)), base + draw(st.integers(-9, 9))])
         value = base + draw(st.integers(-12, 12))
         return {"v": value, "lo": lo, "hi": hi, "tol": draw(st.sampled_from([0, 1, 2])), "tags": ["ints", "big_ints"]}
@@ -260,10 +262,21 @@ def scalar_cases(draw):
     return {"v": value, "lo": lo, "hi": hi, "tol": tol, "tags": sorted(tags | {kind})}
 
 
+def _float_compatible(c):
+    """point_in_bounds mixes its coordinates with a float tolerance: integers too large for a float cannot take
+    part in that arithmetic at all (int - float raises), so they are brought down to 10^18-sized ones."""
+    nums = [c["v"], c["lo"], c["hi"]]
+    if not any(isinstance(n, int) and abs(n) > 2 ** 1000 for n in nums):
+        return c
+    base = min(nums, key=abs)
+    shift = (abs(base) - 10 ** 18) * (1 if base > 0 else -1)
+    return dict(c, v=c["v"] - shift, lo=c["lo"] - shift, hi=c["hi"] - shift)
+
+
 @st.composite
 def point_cases(draw):
-    cx = draw(scalar_cases())
-    cy = draw(scalar_cases())
+    cx = _float_compatible(draw(scalar_cases()))
+    cy = _float_compatible(draw(scalar_cases()))
     tol = draw(st.sampled_from([cx["tol"], cy["tol"], None, None, 0.0, 1e-9]))
     if tol is None and draw(st.booleans()):
         # place a coordinate near bound +/- 1e-9, where the default tolerance decides
@@ -278,7 +291,7 @@ def point_cases(draw):
     case = {"p": [cx["v"], cy["v"]], "b": [[cx["lo"], cy["lo"]], [cx["hi"], cy["hi"]]], "tol": tol,
             "tags": sorted(set(cx["tags"]) | set(cy["tags"]))}
     if draw(st.integers(0, 2)) == 0:
-        ox, oy = draw(scalar_cases()), draw(scalar_cases())
+        ox, oy = _float_compatible(draw(scalar_cases())), _float_compatible(draw(scalar_cases()))
         case["then"] = {"p": [draw(st.sampled_from([cx["v"], ox["v"]])), draw(st.sampled_from([cy["v"], oy["v"]]))],
                         "b": [[ox["lo"], oy["lo"]], [ox["hi"], oy["hi"]]]}
         case["tags"] = sorted(set(case["tags"]) | {"pib_bounds_object_reused"})
